@@ -2,11 +2,13 @@
 //! fn: pallas_hardano::storage::immutable::chunk::Reader::{read_middle_block,read_last_block,next} (via verif_hooks)
 //! fn: pallas_hardano::storage::immutable::secondary::Reader::next, secondary::Entry::from
 //! fn: pallas_hardano::storage::immutable::primary::Reader::{read_offset,next,next_occupied}
-//! stub: std::fmt::format -> empty String; std::panic::catch_unwind -> Ok(f()) (tracing)
-//! stub: <std::fs::File as std::io::Read>::{read,read_buf} -> file model: Err(Other) or k arbitrary bytes, k symbolic in 0..=min(room, 8) (0 = end of file), position advances by k
-//! stub: <std::fs::File as std::io::Seek>::{stream_position,seek} -> file model: Err(Other) or the tracked position (symbolic u64 start value); seek(Current(d)) fails when the sum leaves 0..=u64::MAX
+//! stub: std::fmt::format -> empty String; std::panic::catch_unwind -> Ok(f()) (tracing); tracing LevelFilter::current -> OFF (no subscriber installed); std::alloc::handle_alloc_error -> panic (allocation failure is outside)
+//! stub: <std::fs::File as std::io::Read>::{read,read_buf,read_to_end} -> file model: a per-harness CONCRETE script says for each read call "n bytes" (n may be short of the request; bytes arbitrary) or "I/O error"; after the script the file is at end-of-file. Position advances by the bytes served.
+//! stub: <std::fs::File as std::io::Seek>::{stream_position,seek} -> file model: the tracked position (symbolic u64 start value) or, per harness, an I/O error; seek(Current(d)) fails with InvalidInput when the sum leaves 0..=u64::MAX
+//! stub: BufReader<File> values are built with capacity 1 (pass-through for every non-empty read), i.e. std's buffering logic is replaced by its contract "transparent"; Reader::open / BufReader::new are therefore outside
+//! assume: read sizes, error positions and enum variants of the reader state are concrete per harness (case split), because a merged symbolic io::Error makes CBMC explore the recursive `Box<dyn Error>` drop glue (no verdict in 300 s); offsets, positions, slots and file content are symbolic
 //! assume: the kernel never reports ErrorKind::Interrupted forever (std retries it) and never reports a read longer than the buffer; std::io::BufReader itself is trusted
-//! outside: real files and directories (read_blocks / read_entries open files), `vec![0; delta]` allocation failure for huge deltas (bounded here by delta <= 8), read_to_end of the last block beyond 16 bytes, index files with more than 2^32 slots
+//! outside: real files and directories (read_blocks / read_entries open files), `vec![0; delta]` allocation failure for huge deltas (bounded here by delta <= 8), last blocks beyond 16 bytes
 use pallas_hardano::storage::immutable::{chunk, primary, secondary};
 use std::fs::File;
 use std::io::{self, BorrowedCursor, BufReader, ErrorKind, Read, Seek, SeekFrom};
@@ -14,152 +16,192 @@ use std::os::fd::FromRawFd;
 use std::panic::catch_unwind as cu;
 
 // ---------------------------------------------------------------------------------------------
-// file model (Kani side): arbitrary content, arbitrary length, tracked position
+// file model (Kani side): arbitrary content, tracked position, scripted read sizes / errors
 // ---------------------------------------------------------------------------------------------
-static mut POS: u64 = 0;
-/// number of non-empty reads the file still serves before it reports end-of-file
-static mut FUEL: u32 = 0;
-/// may the model inject I/O errors?
-static mut ERRS: bool = false;
-
-const CHUNK: usize = 8;
+/// All model state lives in ONE static with a non-trivial initial value: Kani 0.68 was observed to give a
+/// `static mut X: u64 = 0` the same storage as the all-zero constant behind `Vec::new()`'s capacity
+/// (writing X changed the capacity of fresh Vecs). A unique bit pattern cannot be merged with a constant.
+pub struct Model {
+    pub magic: u64,
+    pub pos: u64,
+    /// read script: n >= 0: serve min(n, room) bytes; E: I/O error; past the end: end-of-file
+    pub script: [i8; 6],
+    pub sp: usize,
+    pub err_pos: bool,
+    pub err_seek: bool,
+}
+pub static mut M: Model = Model {
+    magic: 0x4b48_4152_445f_4333,
+    pos: 0x7777_1234_5678_9abc,
+    script: [7, 7, 7, 7, 7, 7],
+    sp: 99,
+    err_pos: true,
+    err_seek: true,
+};
+/// script entry: injected I/O error
+pub const E: i8 = -1;
+const CHUNK: usize = 56;
 
 fn io_err() -> io::Error {
     io::Error::from(ErrorKind::Other)
 }
 
-fn model_take(room: usize) -> usize {
+fn next_op() -> i8 {
     unsafe {
-        if FUEL == 0 {
-            return 0;
+        if M.sp < 6 {
+            let v = M.script[M.sp];
+            M.sp += 1;
+            v
+        } else {
+            0
         }
-        FUEL -= 1;
-        let k: usize = kani::any();
-        kani::assume(k <= room && k <= CHUNK);
-        POS = POS.wrapping_add(k as u64);
-        k
     }
 }
 
-fn file_read_stub(_f: &mut File, buf: &mut [u8]) -> io::Result<usize> {
-    if unsafe { ERRS } && kani::any() {
+pub fn file_read_stub(_f: &mut File, buf: &mut [u8]) -> io::Result<usize> {
+    let op = next_op();
+    if op < 0 {
         return Err(io_err());
     }
-    let k = model_take(buf.len());
-    let mut i = 0;
-    while i < CHUNK {
-        if i < k {
-            buf[i] = kani::any();
-        }
-        i += 1;
-    }
+    let n = op as usize;
+    let k = if n < buf.len() { n } else { buf.len() };
+    let bytes: [u8; CHUNK] = kani::any();
+    buf[..k].copy_from_slice(&bytes[..k]);
+    unsafe { M.pos = M.pos.wrapping_add(k as u64) };
     Ok(k)
 }
 
-fn file_read_buf_stub(_f: &mut File, mut cursor: BorrowedCursor<'_, u8>) -> io::Result<()> {
-    if unsafe { ERRS } && kani::any() {
+pub fn file_read_buf_stub(_f: &mut File, mut cursor: BorrowedCursor<'_, u8>) -> io::Result<()> {
+    let op = next_op();
+    if op < 0 {
         return Err(io_err());
     }
-    let k = model_take(cursor.capacity());
+    let n = op as usize;
+    let k = if n < cursor.capacity() { n } else { cursor.capacity() };
     let bytes: [u8; CHUNK] = kani::any();
     cursor.append(&bytes[..k]);
+    unsafe { M.pos = M.pos.wrapping_add(k as u64) };
     Ok(())
 }
 
-fn file_read_to_end_stub(_f: &mut File, buf: &mut Vec<u8>) -> io::Result<usize> {
-    if unsafe { ERRS } && kani::any() {
-        return Err(io_err());
-    }
-    let mut total = 0;
+pub fn file_read_to_end_stub(_f: &mut File, buf: &mut Vec<u8>) -> io::Result<usize> {
+    // the rest of the file: script entries (each <= 8 bytes) up to the first 0 / error, at most 2 of them
+    let mut total = 0usize;
     let mut r = 0;
     while r < 2 {
-        let k = model_take(CHUNK);
-        let bytes: [u8; CHUNK] = kani::any();
-        buf.extend_from_slice(&bytes[..k]);
-        total += k;
+        let op = next_op();
+        if op < 0 {
+            return Err(io_err());
+        }
+        if op == 0 {
+            break;
+        }
+        total += if op > 8 { 8 } else { op as usize };
         r += 1;
     }
+    let bytes: [u8; 16] = kani::any();
+    buf.extend_from_slice(&bytes[..total]);
+    unsafe { M.pos = M.pos.wrapping_add(total as u64) };
     Ok(total)
 }
 
-fn file_stream_position_stub(_f: &mut File) -> io::Result<u64> {
-    if unsafe { ERRS } && kani::any() {
+pub fn file_stream_position_stub(_f: &mut File) -> io::Result<u64> {
+    if unsafe { M.err_pos } {
         return Err(io_err());
     }
-    Ok(unsafe { POS })
+    Ok(unsafe { M.pos })
 }
 
-fn file_seek_stub(_f: &mut File, pos: SeekFrom) -> io::Result<u64> {
-    if unsafe { ERRS } && kani::any() {
+pub fn file_seek_stub(_f: &mut File, pos: SeekFrom) -> io::Result<u64> {
+    if unsafe { M.err_seek } {
         return Err(io_err());
     }
     unsafe {
         match pos {
-            SeekFrom::Start(p) => POS = p,
-            SeekFrom::Current(d) => match POS.checked_add_signed(d) {
-                Some(p) => POS = p,
+            SeekFrom::Start(p) => M.pos = p,
+            SeekFrom::Current(d) => match M.pos.checked_add_signed(d) {
+                Some(p) => M.pos = p,
                 None => return Err(io::Error::from(ErrorKind::InvalidInput)),
             },
             SeekFrom::End(_) => return Err(io::Error::from(ErrorKind::InvalidInput)),
         }
-        Ok(POS)
+        Ok(M.pos)
     }
 }
 
-/// `true` when the harness body runs under plain rustc (concrete playback); stubbed to `false` under Kani
-#[inline(never)]
-fn is_native() -> bool {
-    true
-}
-fn is_native_stub() -> bool {
-    false
+/// no tracing subscriber is installed: the global max level is OFF (its initial value)
+pub fn level_off_stub() -> tracing_core::metadata::LevelFilter {
+    tracing_core::metadata::LevelFilter::OFF
 }
 
-/// A file handle. Under Kani: never used (all I/O goes to the model). Natively (replay): a real,
+/// allocation failure is outside the claim (Kani's allocator never fails); std's real handler prints
+/// through stderr, thread-locals and a hook function pointer, which CBMC cannot prune
+pub fn alloc_error_stub(_l: std::alloc::Layout) -> ! {
+    panic!("allocation failure (outside the claim)")
+}
+
+/// Natively (replay of a counterexample under plain rustc, where Kani stubs do not apply): a real,
 /// zero-filled sparse temp file of length `pos + tail` positioned at `pos`.
-fn raw_file(pos: u64, tail: u64) -> File {
-    if is_native() {
-        use std::sync::atomic::{AtomicU32, Ordering};
-        static N: AtomicU32 = AtomicU32::new(0);
-        let mut p = std::env::temp_dir();
-        let mut name = String::from("k_hard_c43_");
-        name.push_str(&std::process::id().to_string());
-        name.push('_');
-        name.push_str(&N.fetch_add(1, Ordering::SeqCst).to_string());
-        p.push(name);
-        let mut f = std::fs::OpenOptions::new()
-            .read(true)
-            .write(true)
-            .create(true)
-            .truncate(true)
-            .open(&p)
-            .unwrap();
-        f.set_len(pos.saturating_add(tail)).unwrap();
-        f.seek(SeekFrom::Start(pos)).unwrap();
-        let _ = std::fs::remove_file(&p);
-        f
-    } else {
-        unsafe { File::from_raw_fd(3) }
-    }
+/// Under Kani this function is replaced by `raw_file_stub`: a handle that is never used, all I/O goes
+/// to the model. (Replaced rather than branched over, so that none of this code is in Kani's reach.)
+pub fn raw_file(pos: u64, tail: u64) -> File {
+    use std::sync::atomic::{AtomicU32, Ordering};
+    static N: AtomicU32 = AtomicU32::new(0);
+    let mut p = std::env::temp_dir();
+    let mut name = String::from("k_hard_c43_");
+    name.push_str(&std::process::id().to_string());
+    name.push('_');
+    name.push_str(&N.fetch_add(1, Ordering::SeqCst).to_string());
+    p.push(name);
+    let mut f = std::fs::OpenOptions::new()
+        .read(true)
+        .write(true)
+        .create(true)
+        .truncate(true)
+        .open(&p)
+        .unwrap();
+    f.set_len(pos.saturating_add(tail)).unwrap();
+    f.seek(SeekFrom::Start(pos)).unwrap();
+    let _ = std::fs::remove_file(&p);
+    f
+}
+pub fn raw_file_stub(_pos: u64, _tail: u64) -> File {
+    unsafe { File::from_raw_fd(3) }
 }
 
-/// The file under test: model state (Kani) / real file (native) positioned at `pos`.
-fn file_at(pos: u64, tail: u64, errs: bool, fuel: u32) -> File {
+/// The file under test: model state (Kani) / real file (native) positioned at `pos`; `script` = what the reads return.
+fn file_at(pos: u64, tail: u64, script: &[i8]) -> File {
     unsafe {
-        POS = pos;
-        FUEL = fuel;
-        ERRS = errs;
+        assert!(M.magic == 0x4b48_4152_445f_4333, "model storage intact");
+        M.pos = pos;
+        M.sp = 0;
+        M.err_pos = false;
+        M.err_seek = false;
+        let mut i = 0;
+        while i < 6 {
+            M.script[i] = if i < script.len() { script[i] } else { 0 };
+            i += 1;
+        }
     }
     raw_file(pos, tail)
+}
+
+/// Pass-through BufReader (capacity 1: every non-empty read, every seek and position query goes straight
+/// to the file model), so std's buffering logic -- trusted, transparent by contract -- is not in the formula.
+fn bufr(f: File) -> BufReader<File> {
+    BufReader::with_capacity(1, f)
 }
 
 macro_rules! io_harness {
     ($(#[$m:meta])* fn $name:ident() $body:block) => {
         $(#[$m])*
         #[kani::proof]
+        #[kani::unwind(9)]
         #[kani::stub(std::fmt::format, crate::stubs::fmt_format_stub)]
         #[kani::stub(cu, crate::stubs::catch_unwind_stub)]
-        #[kani::stub(is_native, is_native_stub)]
+        #[kani::stub(raw_file, raw_file_stub)]
+        #[kani::stub(std::alloc::handle_alloc_error, alloc_error_stub)]
+        #[kani::stub(tracing_core::metadata::LevelFilter::current, level_off_stub)]
         #[kani::stub(<std::fs::File as std::io::Read>::read, file_read_stub)]
         #[kani::stub(<std::fs::File as std::io::Read>::read_buf, file_read_buf_stub)]
         #[kani::stub(<std::fs::File as std::io::Read>::read_to_end, file_read_to_end_stub)]
@@ -170,20 +212,19 @@ macro_rules! io_harness {
 }
 
 // ---------------------------------------------------------------------------------------------
-// chunk::Reader::read_middle_block
+// chunk::Reader::read_middle_block / read_last_block
 // ---------------------------------------------------------------------------------------------
 
 io_harness! {
 /// FINDING harness (kept as is): a secondary-index entry whose block_offset lies before the current
 /// position of the chunk file (`next_offset < start`) must give an error, not a panic.
-/// bound: file position start: any u64 < 2^32 (realisable natively as a sparse file), next_offset: any u64; no I/O errors; unwind 12
-#[kani::unwind(12)]
+/// bound: file position start: any u64 < 2^32 (realisable natively as a sparse file), next_offset: any u64 < start; no I/O errors; unwind 9
 fn c43_q_chunk_middle_backwards() {
     let start: u64 = kani::any();
     let next_offset: u64 = kani::any();
     kani::assume(start < (1 << 32));
     kani::assume(next_offset < start);
-    let mut br = BufReader::new(file_at(start, 0, false, 2));
+    let mut br = bufr(file_at(start, 0, &[]));
     let r = chunk::verif_hooks::read_middle_block(&mut br, next_offset);
     kani::cover!(r.is_err(), "backwards offset reported as an error");
     core::mem::forget(r);
@@ -191,168 +232,263 @@ fn c43_q_chunk_middle_backwards() {
 }
 }
 
-io_harness! {
-/// general: any position, any next_offset not before it (the backwards case is c43_q_chunk_middle_backwards),
-/// injected I/O errors, short reads and early end-of-file: Ok(block of exactly delta bytes) or Err.
-/// assume: next_offset >= start (excluded case has its own harness); delta = next_offset - start <= 8 (allocation size is outside)
-/// bound: start any u64, delta 0..=8, each read returns Err or 0..=8 arbitrary bytes, <= 3 non-empty reads; unwind 12
-#[kani::unwind(12)]
-fn c43_q_chunk_middle() {
-    let start: u64 = kani::any();
-    let next_offset: u64 = kani::any();
-    kani::assume(next_offset >= start);
-    kani::assume(next_offset - start <= 8);
-    let fuel: u32 = kani::any();
-    kani::assume(fuel <= 3);
-    let mut br = BufReader::new(file_at(start, 8, true, fuel));
-    let r = chunk::verif_hooks::read_middle_block(&mut br, next_offset);
-    match &r {
-        Ok(b) => assert!(b.len() as u64 == next_offset - start, "block has exactly the indexed length"),
-        Err(_) => {}
-    }
-    kani::cover!(matches!(&r, Ok(b) if b.len() == 8), "8-byte block read");
-    kani::cover!(matches!(&r, Ok(b) if b.len() == 0), "empty block read");
-    kani::cover!(r.is_err(), "I/O error or truncation reported");
-    core::mem::forget(r);
-    core::mem::forget(br);
+macro_rules! chunk_middle {
+    ($name:ident, $script:expr, $errpos:expr, |$r:ident, $d:ident| $cov:block) => {
+        io_harness! {
+        fn $name() {
+            let start: u64 = kani::any();
+            let next_offset: u64 = kani::any();
+            kani::assume(next_offset >= start);
+            kani::assume(next_offset - start <= 8);
+            let mut br = bufr(file_at(start, 8, &$script));
+            unsafe { M.err_pos = $errpos };
+            let r = chunk::verif_hooks::read_middle_block(&mut br, next_offset);
+            match &r {
+                Ok(b) => assert!(b.len() as u64 == next_offset - start, "block has exactly the indexed length"),
+                Err(_) => {}
+            }
+            {
+                let ($r, $d) = (&r, next_offset - start);
+                $cov
+            }
+            core::mem::forget(r);
+            core::mem::forget(br);
+        }
+        }
+    };
 }
-}
+// assume: next_offset >= start (the excluded case next_offset < start has its own harness c43_q_chunk_middle_backwards); delta = next_offset - start <= 8 (allocation size is outside)
+// bound: start any u64, delta symbolic 0..=8, file content arbitrary; read script concrete per harness (full read / short read then rest / truncated file / I/O error first or after a short read / position query fails); unwind 9
+chunk_middle!(c43_q_chunk_middle_full, [8], false, |r, d| {
+    kani::cover!(matches!(r, Ok(b) if b.len() == 8), "8-byte block read");
+    kani::cover!(matches!(r, Ok(b) if b.len() == 0), "empty block read");
+});
+chunk_middle!(c43_q_chunk_middle_short, [3, 8], false, |r, d| {
+    kani::cover!(matches!(r, Ok(b) if b.len() == 8), "8-byte block read in two reads");
+    kani::cover!(matches!(r, Ok(b) if b.len() == 2), "block shorter than the first read");
+});
+chunk_middle!(c43_q_chunk_middle_trunc, [3], false, |r, d| {
+    kani::cover!(r.is_err() && d == 4, "truncated chunk file reported");
+    kani::cover!(r.is_ok() && d == 3, "block ending exactly at end of file");
+});
+chunk_middle!(c43_q_chunk_middle_err, [E], false, |r, d| {
+    kani::cover!(r.is_err() && d == 1, "I/O error reported");
+    kani::cover!(r.is_ok() && d == 0, "empty block needs no read");
+});
+chunk_middle!(c43_q_chunk_middle_short_err, [3, E], false, |r, d| {
+    kani::cover!(r.is_err() && d == 8, "I/O error after a short read reported");
+});
+chunk_middle!(c43_q_chunk_middle_poserr, [8], true, |r, d| {
+    kani::cover!(r.is_err(), "failing position query reported");
+});
 
-io_harness! {
-/// last block of a chunk: everything up to end-of-file, or the I/O error
-/// bound: start any u64, read_to_end returns Err or 0..=16 arbitrary bytes; unwind 20
-#[kani::unwind(20)]
-fn c43_q_chunk_last() {
-    let start: u64 = kani::any();
-    let fuel: u32 = kani::any();
-    kani::assume(fuel <= 2);
-    let mut br = BufReader::new(file_at(start, 8, true, fuel));
-    let r = chunk::verif_hooks::read_last_block(&mut br);
-    kani::cover!(matches!(&r, Ok(b) if b.len() > 8), "block longer than one read");
-    kani::cover!(matches!(&r, Ok(b) if b.len() == 0), "empty last block");
+macro_rules! chunk_last {
+    ($name:ident, $script:expr, $errpos:expr, |$r:ident| $cov:block) => {
+        io_harness! {
+        fn $name() {
+            let mut br = bufr(file_at(kani::any(), 16, &$script));
+            unsafe { M.err_pos = $errpos };
+            let r = chunk::verif_hooks::read_last_block(&mut br);
+            {
+                let $r = &r;
+                $cov
+            }
+            core::mem::forget(r);
+            core::mem::forget(br);
+        }
+        }
+    };
+}
+// bound: start any u64; the rest of the file is 0, 8 or 16 arbitrary bytes, or an I/O error after 5 bytes, or a failing position query; unwind 9
+chunk_last!(c43_q_chunk_last_two, [8, 8], false, |r| {
+    kani::cover!(matches!(r, Ok(b) if b.len() == 16), "block read with two reads");
+});
+chunk_last!(c43_q_chunk_last_empty, [], false, |r| {
+    kani::cover!(matches!(r, Ok(b) if b.len() == 0), "empty last block");
+});
+chunk_last!(c43_q_chunk_last_err, [5, E], false, |r| {
     kani::cover!(r.is_err(), "I/O error reported");
-    core::mem::forget(r);
-    core::mem::forget(br);
-}
-}
+});
+chunk_last!(c43_q_chunk_last_poserr, [8], true, |r| {
+    kani::cover!(r.is_err(), "failing position query reported");
+});
 
 // ---------------------------------------------------------------------------------------------
 // primary::Reader
 // ---------------------------------------------------------------------------------------------
 
-fn any_prim_err() -> primary::Error {
-    if kani::any() {
-        primary::Error::CannotReadPrimaryIndex(io_err())
-    } else {
-        primary::Error::VersionMissing(io_err())
+/// reader-state slot, variant concrete per harness
+#[derive(Clone, Copy)]
+enum Slot {
+    Non,
+    Err,
+    Ok,
+}
+
+fn offset_slot(s: Slot) -> Option<Result<u32, primary::Error>> {
+    match s {
+        Slot::Non => None,
+        Slot::Err => Some(Err(primary::Error::CannotReadPrimaryIndex(io_err()))),
+        Slot::Ok => Some(Ok(kani::any())),
     }
 }
 
-fn any_offset_slot() -> Option<Result<u32, primary::Error>> {
-    let k: u8 = kani::any();
-    match k {
-        0 => None,
-        1 => Some(Err(any_prim_err())),
-        _ => Some(Ok(kani::any())),
-    }
-}
-
-io_harness! {
-/// read_offset: 4 bytes big-endian, None exactly at a (possibly mid-entry) end of file, Err on I/O errors
-/// bound: reads return Err or 0..=8 arbitrary bytes each (short reads included), <= 5 non-empty reads; unwind 12
-#[kani::unwind(12)]
-fn c43_q_primary_read_offset() {
-    let fuel: u32 = kani::any();
-    kani::assume(fuel <= 5);
-    let mut br = BufReader::new(file_at(kani::any(), 8, true, fuel));
-    let r = primary::verif_hooks::read_offset(&mut br);
-    kani::cover!(matches!(&r, Some(Ok(x)) if *x == 0x01020304), "an offset is read big-endian");
-    kani::cover!(r.is_none(), "truncated file ends the index");
-    kani::cover!(matches!(&r, Some(Err(_))), "I/O error reported");
-    core::mem::forget(r);
-    core::mem::forget(br);
-}
-}
-
-io_harness! {
-/// one step of the primary iterator from ANY reader state (all combinations of None / Err / Ok(any u32)
-/// in last_offset and next_offset, any last_slot except u32::MAX) over any file behaviour
-/// assume: last_slot != Some(u32::MAX) (needs a primary index of 2^32 entries = 16 GiB; own harness c43_q_primary_slot_wrap)
-/// bound: reader state fully symbolic; reads return Err or 0..=8 arbitrary bytes, <= 5 non-empty reads; unwind 12
-#[kani::unwind(12)]
-fn c43_q_primary_next() {
-    let fuel: u32 = kani::any();
-    kani::assume(fuel <= 5);
-    let br = BufReader::new(file_at(kani::any(), 8, true, fuel));
-    let last_slot: Option<u32> = kani::any();
-    kani::assume(last_slot != Some(u32::MAX));
-    let lo = any_offset_slot();
-    let no = any_offset_slot();
-    let (lo_ok, no_ok) = (
-        if let Some(Ok(x)) = &lo { Some(*x) } else { None },
-        if let Some(Ok(x)) = &no { Some(*x) } else { None },
-    );
-    let mut rd = primary::verif_hooks::from_parts(br, 1, last_slot, lo, no);
-    let r = rd.next();
-    let (slot_after, has_last, has_next) = primary::verif_hooks::state(&rd);
-    match &r {
-        Some(Ok(e)) => {
-            let (l, n) = (lo_ok.unwrap(), no_ok.unwrap());
-            let slot = match last_slot { Some(s) => s + 1, None => 0 };
-            match e {
-                primary::Entry::Occupied(s, o) => assert!(n > l && *s == slot && *o == l, "occupied entry = (next slot, last offset) iff offsets increase"),
-                primary::Entry::Empty(s) => assert!(n <= l && *s == slot, "empty entry iff offsets do not increase"),
+macro_rules! read_offset {
+    ($name:ident, $script:expr, |$r:ident| $post:block) => {
+        io_harness! {
+        fn $name() {
+            let mut br = bufr(file_at(kani::any(), 8, &$script));
+            let r = primary::verif_hooks::read_offset(&mut br);
+            {
+                let $r = &r;
+                $post
             }
-            assert!(slot_after == Some(slot) && has_last, "reader advanced by one slot");
+            core::mem::forget(r);
+            core::mem::forget(br);
         }
-        Some(Err(_)) => assert!(!has_last && !has_next, "an error ends the iteration"),
-        None => {}
-    }
-    kani::cover!(matches!(&r, Some(Ok(primary::Entry::Occupied(..)))), "occupied slot");
-    kani::cover!(matches!(&r, Some(Ok(primary::Entry::Empty(..)))), "empty slot");
-    kani::cover!(matches!(&r, Some(Ok(primary::Entry::Empty(..)))) && no_ok < lo_ok, "decreasing offsets (corruption) read as empty slot");
-    kani::cover!(matches!(&r, Some(Err(_))), "stored error surfaces");
+        }
+    };
+}
+// bound: 4-byte offset with arbitrary content; read script concrete per harness: one read, 2+2, 1+1+1+1, end of file at the entry boundary, end of file after 1/2/3 bytes, I/O error first or after a short read; unwind 9
+read_offset!(c43_q_prim_read_offset_full, [4], |r| {
+    assert!(matches!(r, Some(Ok(_))), "complete entry is read");
+    kani::cover!(matches!(r, Some(Ok(x)) if *x == 0x01020304), "an offset is read");
+});
+read_offset!(c43_q_prim_read_offset_2_2, [2, 2], |r| {
+    assert!(matches!(r, Some(Ok(_))), "entry split over two reads is read");
+    kani::cover!(matches!(r, Some(Ok(x)) if *x == 0xfffffffe), "an offset is read");
+});
+read_offset!(c43_q_prim_read_offset_1x4, [1, 1, 1, 1], |r| {
+    assert!(matches!(r, Some(Ok(_))), "entry split over four reads is read");
+    kani::cover!(matches!(r, Some(Ok(x)) if *x == 7), "an offset is read");
+});
+read_offset!(c43_q_prim_read_offset_eof, [], |r| {
+    assert!(r.is_none(), "end of file ends the index");
     kani::cover!(r.is_none(), "end of index");
-    kani::cover!(matches!(&r, Some(Ok(_))) && !has_next, "file ended right after this entry");
-    core::mem::forget(r);
-    core::mem::forget(rd);
+});
+read_offset!(c43_q_prim_read_offset_trunc1, [1], |r| {
+    assert!(r.is_none(), "file truncated inside an entry ends the index");
+    kani::cover!(r.is_none(), "end of index");
+});
+read_offset!(c43_q_prim_read_offset_trunc3, [2, 1], |r| {
+    assert!(r.is_none(), "file truncated inside an entry ends the index");
+    kani::cover!(r.is_none(), "end of index");
+});
+read_offset!(c43_q_prim_read_offset_err, [E], |r| {
+    assert!(matches!(r, Some(Err(primary::Error::CannotReadPrimaryIndex(_)))), "I/O error is reported");
+    kani::cover!(r.is_some(), "error reported");
+});
+read_offset!(c43_q_prim_read_offset_short_err, [3, E], |r| {
+    assert!(matches!(r, Some(Err(primary::Error::CannotReadPrimaryIndex(_)))), "I/O error after a short read is reported");
+    kani::cover!(r.is_some(), "error reported");
+});
+
+macro_rules! prim_next {
+    ($name:ident, $last:expr, $next:expr, $script:expr, |$r:ident, $st:ident| $post:block) => {
+        io_harness! {
+        fn $name() {
+            let br = bufr(file_at(kani::any(), 8, &$script));
+            let last_slot: Option<u32> = kani::any();
+            kani::assume(last_slot != Some(u32::MAX));
+            let lo = offset_slot($last);
+            let no = offset_slot($next);
+            let lo_ok = if let Some(Ok(x)) = &lo { Some(*x) } else { None };
+            let no_ok = if let Some(Ok(x)) = &no { Some(*x) } else { None };
+            let mut rd = primary::verif_hooks::from_parts(br, 1, last_slot, lo, no);
+            let r = rd.next();
+            let st = primary::verif_hooks::state(&rd);
+            if let Some(Ok(e)) = &r {
+                let (l, n) = (lo_ok.unwrap(), no_ok.unwrap());
+                let slot = match last_slot { Some(s) => s + 1, None => 0 };
+                match e {
+                    primary::Entry::Occupied(s, o) => assert!(n > l && *s == slot && *o == l, "occupied entry = (next slot, last offset) iff offsets increase"),
+                    primary::Entry::Empty(s) => assert!(n <= l && *s == slot, "empty entry iff offsets do not increase"),
+                }
+                assert!(st.0 == Some(slot) && st.1, "reader advanced by one slot");
+                kani::cover!(matches!(e, primary::Entry::Occupied(..)), "occupied slot");
+                kani::cover!(matches!(e, primary::Entry::Empty(..)) && n < l, "decreasing offsets (corruption) read as an empty slot");
+            }
+            if let Some(Err(_)) = &r {
+                assert!(!st.1 && !st.2, "an error ends the iteration");
+            }
+            {
+                let ($r, $st) = (&r, st);
+                $post
+            }
+            core::mem::forget(r);
+            core::mem::forget(rd);
+        }
+        }
+    };
 }
+// assume: last_slot != Some(u32::MAX) (needs a primary index of 2^32 entries = 16 GiB; own harness c43_t_prim_slot_wrap)
+// bound: one Iterator::next step from every reader state: (last_offset, next_offset) variants concrete per harness over {None, Err, Ok(any u32)}^2, last_slot any; the read that follows an (Ok, Ok) step: complete / end of file / truncated / I/O error; unwind 9
+prim_next!(c43_q_prim_next_non_non, Slot::Non, Slot::Non, [4], |r, st| { assert!(r.is_none(), "exhausted reader stays exhausted"); kani::cover!(r.is_none(), "end"); });
+prim_next!(c43_q_prim_next_non_ok, Slot::Non, Slot::Ok, [4], |r, st| { assert!(r.is_none(), "no last offset: end"); kani::cover!(r.is_none(), "end"); });
+prim_next!(c43_q_prim_next_non_err, Slot::Non, Slot::Err, [4], |r, st| { assert!(r.is_none(), "no last offset: end"); kani::cover!(r.is_none(), "end"); });
+prim_next!(c43_q_prim_next_ok_non, Slot::Ok, Slot::Non, [4], |r, st| { assert!(r.is_none(), "a single trailing offset is not an entry"); kani::cover!(r.is_none(), "end"); });
+prim_next!(c43_q_prim_next_err_non, Slot::Err, Slot::Non, [4], |r, st| { assert!(r.is_none(), "original behaviour: (Some(Err), None) ends silently"); kani::cover!(r.is_none(), "end"); });
+prim_next!(c43_q_prim_next_ok_err, Slot::Ok, Slot::Err, [4], |r, st| { assert!(matches!(r, Some(Err(_))), "stored error surfaces"); kani::cover!(r.is_some(), "error"); });
+prim_next!(c43_q_prim_next_err_ok, Slot::Err, Slot::Ok, [4], |r, st| { assert!(matches!(r, Some(Err(_))), "stored error surfaces"); kani::cover!(r.is_some(), "error"); });
+prim_next!(c43_q_prim_next_err_err, Slot::Err, Slot::Err, [4], |r, st| { assert!(matches!(r, Some(Err(_))), "stored error surfaces"); kani::cover!(r.is_some(), "error"); });
+prim_next!(c43_q_prim_next_ok_ok_full, Slot::Ok, Slot::Ok, [4], |r, st| { assert!(matches!(r, Some(Ok(_))) && st.2, "entry produced, next offset loaded"); kani::cover!(st.2, "next loaded"); });
+prim_next!(c43_q_prim_next_ok_ok_eof, Slot::Ok, Slot::Ok, [], |r, st| { assert!(matches!(r, Some(Ok(_))) && !st.2, "entry produced, file ended"); kani::cover!(!st.2, "file ended right after this entry"); });
+prim_next!(c43_q_prim_next_ok_ok_trunc, Slot::Ok, Slot::Ok, [3], |r, st| { assert!(matches!(r, Some(Ok(_))) && !st.2, "entry produced, truncated tail ignored"); kani::cover!(!st.2, "truncated tail"); });
+prim_next!(c43_q_prim_next_ok_ok_err, Slot::Ok, Slot::Ok, [E], |r, st| { assert!(matches!(r, Some(Ok(_))) && st.2, "entry produced, the I/O error is stored for the next step"); kani::cover!(st.2, "error stored"); });
+
+macro_rules! prim_occ {
+    ($name:ident, $script:expr, |$r:ident, $skipped:ident| $post:block) => {
+        io_harness! {
+        fn $name() {
+            let br = bufr(file_at(kani::any(), 8, &$script));
+            let last_slot: Option<u32> = kani::any();
+            kani::assume(match last_slot { Some(s) => s < u32::MAX - 4, None => true });
+            let mut rd = primary::verif_hooks::from_parts(br, 1, last_slot, Some(Ok(kani::any())), Some(Ok(kani::any())));
+            let r = rd.next_occupied();
+            if let Some(Ok(e)) = &r {
+                assert!(e.offset().is_some(), "next_occupied only yields occupied entries");
+            }
+            let st = primary::verif_hooks::state(&rd);
+            let skipped = match (last_slot, st.0) {
+                (Some(a), Some(b)) => b - a - 1,
+                (None, Some(b)) => b,
+                _ => 0,
+            };
+            {
+                let ($r, $skipped) = (&r, skipped);
+                $post
+            }
+            core::mem::forget(r);
+            core::mem::forget(rd);
+        }
+        }
+    };
 }
+// assume: last_slot < u32::MAX - 4 (slot counter wrap: c43_t_prim_slot_wrap)
+// bound: next_occupied from an (Ok(any), Ok(any)) state, last_slot any; the file serves 3 more offsets / 1 offset then ends / 1 offset then an I/O error / nothing; unwind 9
+prim_occ!(c43_q_prim_next_occupied_3, [4, 4, 4], |r, skipped| {
+    kani::cover!(matches!(r, Some(Ok(_))) && skipped == 0, "first slot occupied");
+    kani::cover!(matches!(r, Some(Ok(_))) && skipped == 2, "two empty slots skipped");
+    kani::cover!(r.is_none() && skipped == 3, "only empty slots until the end");
+});
+prim_occ!(c43_q_prim_next_occupied_1_eof, [4], |r, skipped| {
+    kani::cover!(matches!(r, Some(Ok(_))) && skipped == 1, "one empty slot skipped");
+    kani::cover!(r.is_none(), "end of index");
+});
+prim_occ!(c43_q_prim_next_occupied_1_err, [4, E], |r, skipped| {
+    kani::cover!(matches!(r, Some(Err(_))), "I/O error surfaces after the empty slots");
+    kani::cover!(matches!(r, Some(Ok(_))), "occupied slot before the error");
+});
+prim_occ!(c43_q_prim_next_occupied_eof, [], |r, skipped| {
+    kani::cover!(matches!(r, Some(Ok(_))), "last entry occupied");
+    kani::cover!(r.is_none(), "last entry empty");
+});
 
 io_harness! {
-/// next_occupied from any reader state: skips empty slots until an occupied one, an error or the end
-/// assume: last_slot < u32::MAX - 4 (slot counter wrap has its own harness)
-/// bound: reader state fully symbolic; file serves <= 3 more offsets (<= 3 non-empty reads of 4..=8 bytes, then end of file); unwind 12
-#[kani::unwind(12)]
-fn c43_q_primary_next_occupied() {
-    let fuel: u32 = kani::any();
-    kani::assume(fuel <= 3);
-    let br = BufReader::new(file_at(kani::any(), 8, true, fuel));
-    let last_slot: Option<u32> = kani::any();
-    kani::assume(match last_slot { Some(s) => s < u32::MAX - 4, None => true });
-    let lo = any_offset_slot();
-    let no = any_offset_slot();
-    let mut rd = primary::verif_hooks::from_parts(br, 1, last_slot, lo, no);
-    let r = rd.next_occupied();
-    match &r {
-        Some(Ok(e)) => assert!(e.offset().is_some(), "next_occupied only yields occupied entries"),
-        _ => {}
-    }
-    let (slot_after, _, _) = primary::verif_hooks::state(&rd);
-    kani::cover!(matches!(&r, Some(Ok(_))) && slot_after.is_some() && last_slot.is_some() && slot_after.unwrap() >= last_slot.unwrap() + 2, "an empty slot was skipped");
-    kani::cover!(matches!(&r, Some(Err(_))), "error surfaces");
-    kani::cover!(r.is_none(), "end of index");
-    core::mem::forget(r);
-    core::mem::forget(rd);
-}
-}
-
-io_harness! {
-/// slot counter at u32::MAX: `x + 1` (needs 2^32 index entries = a 16 GiB primary file; reported separately)
-/// bound: last_slot = u32::MAX, offsets symbolic; unwind 12
-#[kani::unwind(12)]
-fn c43_t_primary_slot_wrap() {
-    let br = BufReader::new(file_at(0, 8, false, 1));
+/// slot counter at u32::MAX: `x + 1` overflows (needs 2^32 index entries = a 16 GiB primary file; thorough tier, reported separately)
+/// bound: last_slot = u32::MAX, offsets symbolic; unwind 9
+fn c43_t_prim_slot_wrap() {
+    let br = bufr(file_at(0, 8, &[4]));
     let mut rd = primary::verif_hooks::from_parts(br, 1, Some(u32::MAX), Some(Ok(kani::any())), Some(Ok(kani::any())));
     let r = rd.next();
     kani::cover!(r.is_some(), "step taken");
@@ -365,36 +501,17 @@ fn c43_t_primary_slot_wrap() {
 // secondary::Reader::next
 // ---------------------------------------------------------------------------------------------
 
-fn any_prim_entry() -> Option<Result<primary::Entry, primary::Error>> {
-    let k: u8 = kani::any();
-    match k {
-        0 => None,
-        1 => Some(Err(any_prim_err())),
-        2 => Some(Ok(primary::Entry::Empty(kani::any()))),
-        _ => Some(Ok(primary::Entry::Occupied(kani::any(), kani::any()))),
-    }
-}
-
-fn prim_reader(fuel_is_shared: ()) -> primary::Reader {
-    // the primary index behind the secondary reader: any state; it shares the file model
-    let br = BufReader::new(raw_file(0, 0));
-    let last_slot: Option<u32> = kani::any();
-    kani::assume(match last_slot { Some(s) => s < u32::MAX - 4, None => true });
-    primary::verif_hooks::from_parts(br, 1, last_slot, any_offset_slot(), any_offset_slot())
-}
-
 io_harness! {
 /// FINDING harness (kept as is): a primary-index offset that lies before the current position of the
 /// secondary file (`current < start`) must give an error or a seek backwards, not a panic.
-/// bound: secondary file position start: any u64 < 2^32, primary offset current: any u32 < start; no I/O errors; unwind 12
-#[kani::unwind(12)]
+/// bound: secondary file position start: any u64 < 2^32, primary offset current: any u32 < start; no I/O errors; unwind 9
 fn c43_q_secondary_backwards() {
     let start: u64 = kani::any();
     let current: u32 = kani::any();
     kani::assume(start < (1 << 32));
     kani::assume((current as u64) < start);
-    let br = BufReader::new(file_at(start, 64, false, 0));
-    let pbr = BufReader::new(raw_file(0, 0));
+    let br = bufr(file_at(start, 64, &[56]));
+    let pbr = bufr(raw_file(0, 0));
     let index = primary::verif_hooks::from_parts(pbr, 1, None, None, None);
     let mut rd = secondary::verif_hooks::from_parts(br, index, Some(Ok(primary::Entry::Occupied(0, current))));
     let r = rd.next();
@@ -404,45 +521,95 @@ fn c43_q_secondary_backwards() {
 }
 }
 
-io_harness! {
-/// general: one step of the secondary iterator from any `current` (None / Err / Empty / Occupied(any offset)),
-/// any primary-reader state, any file position not after the offset, any file behaviour.
-/// assume: current >= start (excluded case: c43_q_secondary_backwards)
-/// bound: start any u64, current any u32; reads return Err or 0..=8 arbitrary bytes, <= 9 non-empty reads in total (56-byte entry needs 7); unwind 16
-#[kani::unwind(16)]
-fn c43_q_secondary_next() {
-    let start: u64 = kani::any();
-    let fuel: u32 = kani::any();
-    kani::assume(fuel <= 9);
-    let br = BufReader::new(file_at(start, 64, true, fuel));
-    let index = prim_reader(());
-    let cur = any_prim_entry();
-    let off = match &cur { Some(Ok(e)) => e.offset(), _ => None };
-    if let Some(o) = off {
-        kani::assume(o as u64 >= start);
-    }
-    let was_err = matches!(&cur, Some(Err(_)));
-    let mut rd = secondary::verif_hooks::from_parts(br, index, cur);
-    let r = rd.next();
-    match &r {
-        Some(Ok(_)) => assert!(off.is_some(), "an entry is only produced for an occupied primary slot"),
-        Some(Err(_)) => assert!(!secondary::verif_hooks::has_current(&rd), "an error ends the iteration"),
-        None => assert!(off.is_none() && !was_err, "iteration ends only when the primary index has no occupied slot"),
-    }
-    kani::cover!(matches!(&r, Some(Ok(_))), "entry read");
-    kani::cover!(matches!(&r, Some(Err(secondary::Error::InconsistentState))), "truncated secondary index = InconsistentState");
-    kani::cover!(matches!(&r, Some(Err(secondary::Error::CannotReadSecondaryIndex(_)))), "I/O error reported");
-    kani::cover!(matches!(&r, Some(Err(secondary::Error::PrimaryIndexError(_)))), "primary error forwarded");
-    kani::cover!(r.is_none(), "end of index");
-    core::mem::forget(r);
-    core::mem::forget(rd);
-}
+/// `current` of the secondary reader, variant concrete per harness
+#[derive(Clone, Copy)]
+enum Cur {
+    Non,
+    Err,
+    Empty,
+    Occ,
 }
 
+macro_rules! sec_next {
+    ($name:ident, $cur:expr, $prim:expr, $script:expr, $errpos:expr, $errseek:expr, |$r:ident, $has:ident| $post:block) => {
+        io_harness! {
+        fn $name() {
+            let start: u64 = kani::any();
+            let br = bufr(file_at(start, 64, &$script));
+            unsafe { M.err_pos = $errpos; M.err_seek = $errseek; }
+            let pbr = bufr(raw_file(0, 0));
+            let last_slot: Option<u32> = kani::any();
+            kani::assume(match last_slot { Some(s) => s < u32::MAX - 4, None => true });
+            let (pl, pn) = $prim;
+            let index = primary::verif_hooks::from_parts(pbr, 1, last_slot, offset_slot(pl), offset_slot(pn));
+            let cur = match $cur {
+                Cur::Non => None,
+                Cur::Err => Some(Err(primary::Error::CannotReadPrimaryIndex(io_err()))),
+                Cur::Empty => Some(Ok(primary::Entry::Empty(kani::any()))),
+                Cur::Occ => {
+                    let o: u32 = kani::any();
+                    kani::assume(o as u64 >= start);
+                    Some(Ok(primary::Entry::Occupied(kani::any(), o)))
+                }
+            };
+            let mut rd = secondary::verif_hooks::from_parts(br, index, cur);
+            let r = rd.next();
+            let has = secondary::verif_hooks::has_current(&rd);
+            if let Some(Err(_)) = &r {
+                assert!(!has, "an error ends the iteration");
+            }
+            {
+                let ($r, $has) = (&r, has);
+                $post
+            }
+            core::mem::forget(r);
+            core::mem::forget(rd);
+        }
+        }
+    };
+}
+// assume: primary offset current >= position of the secondary file (the excluded case current < start has its own harness c43_q_secondary_backwards)
+// bound: one Iterator::next step; `current` variant concrete per harness over {None, Err, Empty(any), Occupied(any slot, any u32 offset >= start)}, start any u64; 56-byte entry content arbitrary; read script concrete: one read / 20+36 / truncated / end of file / I/O error / failing position query / failing seek; primary reader behind it exhausted or in an (Ok, Ok) state with one more offset to read; unwind 9
+sec_next!(c43_q_sec_next_none, Cur::Non, (Slot::Non, Slot::Non), [56], false, false, |r, has| { assert!(r.is_none(), "no current entry: end"); kani::cover!(r.is_none(), "end"); });
+sec_next!(c43_q_sec_next_prim_err, Cur::Err, (Slot::Non, Slot::Non), [56], false, false, |r, has| { assert!(matches!(r, Some(Err(secondary::Error::PrimaryIndexError(_)))), "primary error forwarded"); kani::cover!(r.is_some(), "error"); });
+sec_next!(c43_q_sec_next_empty, Cur::Empty, (Slot::Non, Slot::Non), [56], false, false, |r, has| { assert!(r.is_none(), "an empty primary slot has no secondary entry"); kani::cover!(r.is_none(), "end"); });
+sec_next!(c43_q_sec_next_full, Cur::Occ, (Slot::Non, Slot::Non), [56], false, false, |r, has| {
+    assert!(matches!(r, Some(Ok(_)) | Some(Err(secondary::Error::CannotReadSecondaryIndex(_)))), "entry read, or the seek failed");
+    kani::cover!(matches!(r, Some(Ok(e)) if e.block_offset == u64::MAX), "entry with a wild block offset is passed on");
+    kani::cover!(matches!(r, Some(Err(_))), "seek beyond u64::MAX reported as an error");
+});
+sec_next!(c43_q_sec_next_split, Cur::Occ, (Slot::Non, Slot::Non), [20, 36], false, false, |r, has| {
+    kani::cover!(matches!(r, Some(Ok(_))), "entry read with two reads");
+});
+sec_next!(c43_q_sec_next_trunc, Cur::Occ, (Slot::Non, Slot::Non), [20], false, false, |r, has| {
+    assert!(matches!(r, Some(Err(_))), "truncated entry is an error");
+    kani::cover!(matches!(r, Some(Err(secondary::Error::InconsistentState))), "truncated secondary index = InconsistentState");
+});
+sec_next!(c43_q_sec_next_eof, Cur::Occ, (Slot::Non, Slot::Non), [], false, false, |r, has| {
+    assert!(matches!(r, Some(Err(_))), "missing entry is an error");
+    kani::cover!(matches!(r, Some(Err(secondary::Error::InconsistentState))), "secondary index shorter than the primary says = InconsistentState");
+});
+sec_next!(c43_q_sec_next_read_err, Cur::Occ, (Slot::Non, Slot::Non), [20, E], false, false, |r, has| {
+    assert!(matches!(r, Some(Err(secondary::Error::CannotReadSecondaryIndex(_)))), "I/O error reported");
+    kani::cover!(r.is_some(), "error");
+});
+sec_next!(c43_q_sec_next_pos_err, Cur::Occ, (Slot::Non, Slot::Non), [56], true, false, |r, has| {
+    assert!(matches!(r, Some(Err(secondary::Error::CannotReadSecondaryIndex(_)))), "failing position query reported");
+    kani::cover!(r.is_some(), "error");
+});
+sec_next!(c43_q_sec_next_seek_err, Cur::Occ, (Slot::Non, Slot::Non), [56], false, true, |r, has| {
+    kani::cover!(matches!(r, Some(Err(secondary::Error::CannotReadSecondaryIndex(_)))), "failing seek reported");
+    kani::cover!(matches!(r, Some(Ok(_))), "no seek needed when the file is already at the offset");
+});
+sec_next!(c43_q_sec_next_then_prim, Cur::Occ, (Slot::Ok, Slot::Ok), [56, 4], false, false, |r, has| {
+    kani::cover!(matches!(r, Some(Ok(_))) && has, "entry read and the next occupied primary slot loaded");
+    kani::cover!(matches!(r, Some(Ok(_))) && !has, "entry read, primary index has no further occupied slot");
+});
+
 /// Entry::from on 56 arbitrary bytes: field extraction is total and big-endian
-/// bound: 56 symbolic bytes; unwind 40
+/// bound: 56 symbolic bytes; unwind 34
 #[kani::proof]
-#[kani::unwind(40)]
+#[kani::unwind(34)]
 #[kani::stub(std::fmt::format, crate::stubs::fmt_format_stub)]
 fn c43_q_secondary_entry_layout() {
     let b: [u8; 56] = kani::any();
@@ -480,74 +647,56 @@ fn any_sec_entry() -> secondary::Entry {
     }
 }
 
-fn any_sec_slot() -> Option<Result<secondary::Entry, secondary::Error>> {
-    let k: u8 = kani::any();
-    match k {
-        0 => None,
-        1 => Some(Err(secondary::Error::InconsistentState)),
-        _ => Some(Ok(any_sec_entry())),
+fn sec_slot(s: Slot) -> Option<Result<secondary::Entry, secondary::Error>> {
+    match s {
+        Slot::Non => None,
+        Slot::Err => Some(Err(secondary::Error::InconsistentState)),
+        Slot::Ok => Some(Ok(any_sec_entry())),
     }
 }
 
-io_harness! {
-/// one step of the chunk iterator from any (current, next) state; the secondary index behind it is exhausted
-/// assume: next.block_offset >= position of the chunk file, delta <= 8 (backwards case: c43_q_chunk_middle_backwards)
-/// bound: current/next in {None, Err, Ok(entry with symbolic block_offset)}, start any u64; reads Err or 0..=8 bytes, <= 3 non-empty reads; unwind 20
-#[kani::unwind(20)]
-fn c43_q_chunk_next() {
-    let start: u64 = kani::any();
-    let fuel: u32 = kani::any();
-    kani::assume(fuel <= 3);
-    let br = BufReader::new(file_at(start, 8, true, fuel));
-    let pbr = BufReader::new(raw_file(0, 0));
-    let sbr = BufReader::new(raw_file(0, 0));
-    let pidx = primary::verif_hooks::from_parts(pbr, 1, None, None, None);
-    let sidx = secondary::verif_hooks::from_parts(sbr, pidx, None);
-    let cur = any_sec_slot();
-    let nxt = any_sec_slot();
-    if let Some(Ok(e)) = &nxt {
-        kani::assume(e.block_offset >= start && e.block_offset - start <= 8);
-    }
-    let (c_some, n_err, n_ok) = (cur.is_some(), matches!(&nxt, Some(Err(_))), matches!(&nxt, Some(Ok(_))));
-    let mut rd = chunk::verif_hooks::from_parts(br, sidx, cur, nxt);
-    let r = rd.next();
-    let (has_cur, has_next) = chunk::verif_hooks::state(&rd);
-    match &r {
-        None => assert!(!c_some, "iteration ends only when there is no current entry"),
-        Some(Err(chunk::Error::SecondaryIndexError(_))) => assert!(c_some && n_err && !has_cur && !has_next, "index error forwarded and iteration ended"),
-        Some(_) => assert!(c_some && !n_err, "a block (or read error) is produced for the current entry"),
-    }
-    kani::cover!(matches!(&r, Some(Ok(_))) && n_ok, "middle block");
-    kani::cover!(matches!(&r, Some(Ok(_))) && !n_ok, "last block");
-    kani::cover!(matches!(&r, Some(Err(chunk::Error::CannotReadBlock(_)))), "read error reported");
-    kani::cover!(matches!(&r, Some(Err(chunk::Error::SecondaryIndexError(_)))), "index error forwarded");
-    kani::cover!(r.is_none(), "end of chunk");
-    core::mem::forget(r);
-    core::mem::forget(rd);
+macro_rules! chunk_next {
+    ($name:ident, $cur:expr, $next:expr, $script:expr, |$r:ident, $st:ident| $post:block) => {
+        io_harness! {
+        fn $name() {
+            let start: u64 = kani::any();
+            let br = bufr(file_at(start, 8, &$script));
+            let pidx = primary::verif_hooks::from_parts(bufr(raw_file(0, 0)), 1, None, None, None);
+            let sidx = secondary::verif_hooks::from_parts(bufr(raw_file(0, 0)), pidx, None);
+            let cur = sec_slot($cur);
+            let nxt = sec_slot($next);
+            if let Some(Ok(e)) = &nxt {
+                kani::assume(e.block_offset >= start && e.block_offset - start <= 8);
+            }
+            let mut rd = chunk::verif_hooks::from_parts(br, sidx, cur, nxt);
+            let r = rd.next();
+            let st = chunk::verif_hooks::state(&rd);
+            {
+                let ($r, $st) = (&r, st);
+                $post
+            }
+            core::mem::forget(r);
+            core::mem::forget(rd);
+        }
+        }
+    };
 }
-}
+// assume: next.block_offset >= position of the chunk file and delta <= 8 (backwards case: c43_q_chunk_middle_backwards)
+// bound: one Iterator::next step of chunk::Reader; (current, next) variants concrete per harness over {None, Err, Ok(entry with symbolic block_offset)}; secondary index behind it exhausted; start any u64; block content arbitrary; unwind 9
+chunk_next!(c43_q_chunk_next_none, Slot::Non, Slot::Ok, [8], |r, st| { assert!(r.is_none(), "no current entry: end of chunk"); kani::cover!(r.is_none(), "end"); });
+chunk_next!(c43_q_chunk_next_index_err, Slot::Ok, Slot::Err, [8], |r, st| { assert!(matches!(r, Some(Err(chunk::Error::SecondaryIndexError(_)))) && !st.0 && !st.1, "index error forwarded and iteration ended"); kani::cover!(r.is_some(), "error"); });
+chunk_next!(c43_q_chunk_next_err_err, Slot::Err, Slot::Err, [8], |r, st| { assert!(matches!(r, Some(Err(chunk::Error::SecondaryIndexError(_)))) && !st.0 && !st.1, "index error forwarded and iteration ended"); kani::cover!(r.is_some(), "error"); });
+chunk_next!(c43_q_chunk_next_middle, Slot::Ok, Slot::Ok, [8], |r, st| { assert!(matches!(r, Some(Ok(_))) && st.0 && !st.1, "middle block read, next entry becomes current, index exhausted"); kani::cover!(matches!(r, Some(Ok(b)) if b.len() == 8), "8-byte middle block"); });
+chunk_next!(c43_q_chunk_next_middle_trunc, Slot::Ok, Slot::Ok, [3], |r, st| { kani::cover!(matches!(r, Some(Err(chunk::Error::CannotReadBlock(_)))), "truncated chunk reported"); kani::cover!(matches!(r, Some(Ok(_))), "short block still complete"); });
+chunk_next!(c43_q_chunk_next_last, Slot::Ok, Slot::Non, [8, 8], |r, st| { assert!(matches!(r, Some(Ok(_))) && !st.0 && !st.1, "last block read, iteration ended"); kani::cover!(matches!(r, Some(Ok(b)) if b.len() == 16), "16-byte last block"); });
+chunk_next!(c43_q_chunk_next_last_err, Slot::Ok, Slot::Non, [8, E], |r, st| { assert!(matches!(r, Some(Err(chunk::Error::CannotReadBlock(_)))) && !st.0, "read error reported, iteration ended"); kani::cover!(r.is_some(), "error"); });
 
 io_harness! {
 /// vacuity twin: must come back FAILED
-#[kani::unwind(12)]
 fn c43_v_twin() {
-    let mut br = BufReader::new(file_at(kani::any(), 8, true, 3));
+    let mut br = bufr(file_at(kani::any(), 8, &[4]));
     let r = primary::verif_hooks::read_offset(&mut br);
-    assert!(matches!(&r, Some(Ok(_))), "twin: must fail");
-    core::mem::forget(r);
-    core::mem::forget(br);
-}
-}
-
-io_harness! {
-#[kani::unwind(12)]
-fn probe_a() {
-    let start: u64 = kani::any();
-    let next_offset: u64 = kani::any();
-    kani::assume(next_offset < start);
-    unsafe { POS = start; FUEL = 2; ERRS = false; }
-    let mut br = BufReader::new(unsafe { File::from_raw_fd(3) });
-    let r = chunk::verif_hooks::read_middle_block(&mut br, next_offset);
+    assert!(matches!(&r, Some(Ok(x)) if *x != 0x01020304), "twin: must fail");
     core::mem::forget(r);
     core::mem::forget(br);
 }
